@@ -780,6 +780,9 @@ func rewriteSelect(n *ast.SelectStmt, parent ast.Node, fset *token.FileSet) *ast
 			&ast.IfStmt{Cond: &ast.BinaryExpr{X: chosen, Op: token.LSS, Y: intLit(0)}, Body: &ast.BlockStmt{List: []ast.Stmt{none}}},
 		}},
 	}
+	// (a default clause that cannot be reached keeps the switch a terminating statement exactly
+	// when the select was one: `func f() T { select { case ...: return x } }` must still compile)
+	bodyCases = append(bodyCases, &ast.CaseClause{Body: []ast.Stmt{&ast.ExprStmt{X: &ast.CallExpr{Fun: ast.NewIdent("panic"), Args: []ast.Expr{strLit("verifsimrt: select dispatch")}}}}})
 	var dispatch ast.Stmt = &ast.SwitchStmt{Tag: chosen, Body: &ast.BlockStmt{List: bodyCases}}
 	if ls, ok := parent.(*ast.LabeledStmt); ok && ls.Stmt == n {
 		dispatch = &ast.LabeledStmt{Label: ast.NewIdent(ls.Label.Name), Stmt: dispatch}
